@@ -556,7 +556,7 @@ class ItemFactory:
             # We try to find the ProcedureItem in the unqualified module imports
             module_names = [imprt.module for imprt in unqualified_imports]
             candidates = self.get_or_create_module_definitions_from_candidates(
-                proc_name, config, module_names=module_names, only=ProcedureItem
+                proc_name, config, module_names=module_names, only=(ProcedureItem, InterfaceItem)
             )
             if candidates:
                 if len(candidates) > 1:
